@@ -85,6 +85,38 @@ func TestVerifToFileXdevChild(t *testing.T) {
 		}
 	}
 	fmt.Fprintf(res, "BATCH-DONE\n")
+	if end == "fsyncfault" {
+		// the descriptor of f.out now names the write end of a pipe: write(2) succeeds, fsync(2) fails (EINVAL) — the
+		// "write accepted, error reported at fsync time" shape (EIO / ENOSPC / EDQUOT at write-back), in both modes;
+		// the router is idle in its select. A second full batch follows: Sync must fail, nothing may be finished.
+		pr, pw, perr := os.Pipe()
+		broken := false
+		if perr == nil && f.out != nil {
+			vfE8XKeep = append(vfE8XKeep, pr, pw)
+			if syscall.Dup3(int(pw.Fd()), int(f.out.Fd()), 0) == nil {
+				broken = f.out.Sync() != nil
+			}
+		}
+		fmt.Fprintf(res, "FSYNC-BROKEN ok=%v\n", broken)
+		if !broken {
+			res.Close()
+			os.Exit(0)
+		}
+		for i := 0; i < count-1; i++ {
+			var id nsq.MessageID
+			copy(id[:], fmt.Sprintf("%d", first+count+i))
+			m := nsq.NewMessage(id, []byte(fmt.Sprintf("m%d|payload-%d", first+count+i, first+count+i)))
+			m.Delegate = rec
+			f.HandleMessage(m)
+		}
+		select { // a correct router has left through os.Exit(1) long before this
+		case <-rec.got:
+		case <-time.After(3 * time.Second):
+		}
+		fmt.Fprintf(res, "END\n")
+		res.Close()
+		os.Exit(0)
+	}
 	if end == "hup" {
 		f.hupChan <- true // Sync, Close → move → (EXDEV: os.Exit(1))
 		f.hupChan <- true // accepted only once the router is back in its select
@@ -96,6 +128,8 @@ func TestVerifToFileXdevChild(t *testing.T) {
 	res.Close()
 	os.Exit(0)
 }
+
+var vfE8XKeep []*os.File // pipe ends of the fsync-fault leg stay reachable (no finalizer closes them)
 
 type vfE8XRec struct {
 	res  *os.File
@@ -251,6 +285,25 @@ func TestVerifToFileXdev(t *testing.T) {
 		if len(vfE8Tree2(filepath.Join(root, "w"))) != 0 {
 			fail("gzip-level %d: work file not moved", level)
 		}
+	}
+	// fsync fault after accepted writes (plain and gzip): the batch whose Sync fails is never finished, the tool stops
+	for _, gz := range []int{0, 1} {
+		root := filepath.Join(base, fmt.Sprintf("fsf%d", gz))
+		os.MkdirAll(filepath.Join(root, "o"), 0o755)
+		os.MkdirAll(filepath.Join(root, "w"), 0o755)
+		code, res := vfE8XRun(t, root, fmt.Sprintf("%d 6 1 3 fsyncfault", gz))
+		if !strings.Contains(res, "FSYNC-BROKEN ok=true") {
+			fmt.Printf("XDEV fsyncfault gzip=%d not injectable here (%q)\n", gz, res)
+			continue
+		}
+		ncase++
+		after := res[strings.Index(res, "FSYNC-BROKEN"):]
+		if strings.Contains(after, "FIN ") {
+			fail("gzip=%d: fsync of the output file fails after the batch was written, yet the batch was finished: %q", gz, after)
+		} else if code != 1 {
+			fail("gzip=%d: fsync of the output file fails: expected the fail-stop exit (os.Exit(1)), got exit code %d, log %q", gz, code, res)
+		}
+		fmt.Printf("XDEV fsyncfault gzip=%d exit=%d fins-after-fault=%d\n", gz, code, strings.Count(after, "FIN "))
 	}
 	fmt.Printf("ORACLE-DONE xdev cases=%d fails=%d xdev=%v\n", ncase, fails, xdevOK)
 }
